@@ -1,10 +1,151 @@
 import SV.Driver.Util
-/- svdriver_c11: line protocol for the C11 model (stub until the model is built). -/
+import SV.Model.ChunkCache
+/-
+svdriver_c11: line protocol for the C11 model (chunk caches of cache/cache.go), sequential histories:
+every line is one whole API call of one goroutine (the model's composite of steps), SyncAdd = true.
+  new dir <memcap> <fdcap> <direct 0|1>   -> ok        NewDirectoryCache (caps 0 => default 10)
+  new mem                                 -> ok        NewMemoryCache
+  add <key> <direct 0|1> <passthrough 0|1> -> w=<id>   Add(key[, Direct()][, PassThrough()])
+  write <w> <hex>                         -> n=<len>   Write
+  commit <w>                              -> ok        Commit
+  commitnospace <w>                       -> ok | err  Commit of a memory writer while no file can grow
+  abort <w>                               -> ok        Abort
+  wclose <w>                              -> ok        Close (writer)
+  get <key> <direct 0|1> <passthrough 0|1> -> hit r=<id> | miss
+  read <r> <off> <len>                    -> n=<n> <hex> | err      ReadAt
+  rclose <r>                              -> ok        Close (reader)
+An operation whose guard is false in the model (API misuse, unknown handle) prints `bad-op`.
+-/
 namespace SV.Driver.C11
+open SV.Driver SV.ChunkCache SV.ChunkCache.MemCache
 
-def step (s : Unit) : List String → Unit × String
-  | _ => (s, "bad-op")
+inductive St where
+  | none
+  | dir (s : State)
+  | mem (s : MState)
+
+def parseBool? : String → Option Bool
+  | "0" => some false
+  | "1" => some true
+  | _ => none
+
+def showRead (v : Option Bytes) (off n : Nat) : String :=
+  match v with
+  | some v => let d := readAt v off n; s!"n={d.length} {hex d}"
+  | none => "err"
+
+def stepDir (s : State) (ws : List String) : Option (State × String) :=
+  match ws with
+  | ["add", k, d, p] => do
+    let k ← parseNat? k
+    let d ← parseBool? d
+    let p ← parseBool? p
+    let s' ← s.step? (.addOpen k { direct := d, passThrough := p } (firstPooled s.bufs))
+    some (s', s!"w={s.writers.length}")
+  | ["write", w, p] => do
+    let w ← parseNat? w
+    let p ← unhex? p
+    let s' ← s.step? (.write w p)
+    some (s', s!"n={p.length}")
+  | ["commit", w] => do
+    let w ← parseNat? w
+    let s' ← s.commitSync w none
+    some (s', "ok")
+  | ["commitnospace", w] => do
+    let w ← parseNat? w
+    let r ← s.commitSyncNoSpace w
+    some (r.1, if r.2 then "ok" else "err")
+  | ["abort", w] => do
+    let w ← parseNat? w
+    let s' ← s.step? (.abort w)
+    some (s', "ok")
+  | ["wclose", w] => do
+    let w ← parseNat? w
+    let s' ← s.step? (.closeWriter w)
+    some (s', "ok")
+  | ["get", k, d, p] => do
+    let k ← parseNat? k
+    let d ← parseBool? d
+    let p ← parseBool? p
+    match s.get k { direct := d, passThrough := p } with
+    | some s' => some (s', s!"hit r={s.readers.length}")
+    | none => some (s, "miss")
+  | ["read", r, off, n] => do
+    let r ← parseNat? r
+    let off ← parseNat? off
+    let n ← parseNat? n
+    let rd ← s.readers[r]?
+    let _ ← s.step? (.read r)
+    some (s, showRead (s.visible rd) off n)
+  | ["rclose", r] => do
+    let r ← parseNat? r
+    let s' ← s.closeReaderFull r
+    some (s', "ok")
+  | _ => none
+
+def stepMem (s : MState) (ws : List String) : Option (MState × String) :=
+  match ws with
+  | ["add", k, d, p] => do
+    let k ← parseNat? k
+    let _ ← parseBool? d
+    let _ ← parseBool? p
+    let s' ← s.step? (.add k)
+    some (s', s!"w={s.writers.length}")
+  | ["write", w, p] => do
+    let w ← parseNat? w
+    let p ← unhex? p
+    let s' ← s.step? (.write w p)
+    some (s', s!"n={p.length}")
+  | ["commit", w] => do
+    let w ← parseNat? w
+    let s' ← s.step? (.commit w)
+    some (s', "ok")
+  | ["abort", w] => do
+    let w ← parseNat? w
+    let s' ← s.step? (.abort w)
+    some (s', "ok")
+  | ["wclose", w] => do
+    let w ← parseNat? w
+    let _ ← s.writers[w]?
+    some (s, "ok")
+  | ["get", k, d, p] => do
+    let k ← parseNat? k
+    let _ ← parseBool? d
+    let _ ← parseBool? p
+    match s.step? (.get k) with
+    | some s' => some (s', s!"hit r={s.readers.length}")
+    | none => some (s, "miss")
+  | ["read", r, off, n] => do
+    let r ← parseNat? r
+    let off ← parseNat? off
+    let n ← parseNat? n
+    let rd ← s.readers[r]?
+    some (s, showRead (s.visible rd) off n)
+  | ["rclose", r] => do
+    let r ← parseNat? r
+    let _ ← s.readers[r]?
+    some (s, "ok")
+  | _ => none
+
+def step (st : St) (ws : List String) : St × String :=
+  match ws with
+  | ["new", "dir", mc, fc, d] =>
+    match parseNat? mc, parseNat? fc, parseBool? d with
+    | some mc, some fc, some d => (.dir (State.new mc fc { direct := d, syncAdd := true }), "ok")
+    | _, _, _ => (st, "bad-op")
+  | ["new", "mem"] => (.mem {}, "ok")
+  | _ =>
+    match st with
+    | .none => (st, "bad-op")
+    | .dir s =>
+      match stepDir s ws with
+      | some (s', out) => (.dir s', out)
+      | none => (st, "bad-op")
+    | .mem s =>
+      match stepMem s ws with
+      | some (s', out) => (.mem s', out)
+      | none => (st, "bad-op")
 
 end SV.Driver.C11
 
-def main : IO Unit := SV.Driver.loop SV.Driver.C11.step ()
+def main : IO Unit := SV.Driver.loop SV.Driver.C11.step .none
